@@ -52,6 +52,16 @@ TABLE = {
     "C20b": ("C20", "/tmp/seed-C20/b", "mirror right-edge read skipped when the edge is a single hash: needs a mirror checkpoint at a power-of-two size with missing or corrupted tiles", ["C20"]),
 }
 
+# round 2 (three per property, /tmp/seed2/<prop>/{c,d,e})
+TABLE.update({
+    "C14c": ("C14", "/tmp/seed2/C14/c", "failed checkpoint Lock.Replace is retried against a re-fetched lock value: needs two witness instances on one lock store (overlapping restart), the stale one is sent old=3 -> a fork at 4 after the other recorded 5", ["C14"]),
+    "C14d": ("C14", "/tmp/seed2/C14/d", "'no growth' fast path (new size == recorded size != 0) only requires an empty proof: needs a log-signed checkpoint at exactly the recorded size with another root", ["C14"]),
+    "C14e": ("C14", "/tmp/seed2/C14/e", "per-origin verifier lists accumulate the keys of logs visited earlier (scratch slice never reset): needs >= 2 configured logs and a checkpoint for origin A signed only by log B's key", ["C14"]),
+    "C15c": ("C15", "/tmp/seed2/C15/c", "packages at or below the next entry skip proof verification after their hashes went into the overlay: needs a re-sent tile [256,512) with wrong entries followed by a genuine new full tile; level-1 tile then holds unverified hashes", ["C15"]),
+    "C15d": ("C15", "/tmp/seed2/C15/d", "ensureCutTiles uploads the cut hash tile before the cut data tile: needs a ticket commit behind the frontier, a failed upload of the cut data tile and a client retry", ["C15"]),
+    "C15e": ("C15", "/tmp/seed2/C15/e", "failed mirror-checkpoint Lock.Replace retried with a re-fetched lock without re-checking sizes: needs an old process holding a request between packages and commit while a new process mirrors further; mirror size goes back", ["C15"]),
+})
+
 
 def do_import():
     for mid, (prop, src, needs, checks) in sorted(TABLE.items()):
